@@ -320,6 +320,9 @@ def corpus_cases():
                         "LAGTIME(ON)"], "seed": 17})
     cs.append({"kind": "roundtrip", "mfl": "ALLOMETRY(WT)", "seed": 18})
     cs.append({"kind": "roundtrip", "mfl": "ALLOMETRY(WT,70)", "seed": 19})
+    cs.append({"kind": "roundtrip", "mfl": "ALLOMETRY(WT,70.5);ALLOMETRY(LBM,1)", "seed": 24})
+    # statement-level `x - *` (fixed f9eda08: 1-tuple of the class default)
+    cs.append({"kind": "alg", "a": "ELIMINATION(MM);ABSORPTION([FO,ZO]);LAGTIME(ON)", "b": "ELIMINATION(*);ABSORPTION(*);LAGTIME(*)", "seed": 25})
     cs.append({"kind": "roundtrip", "mfl": "COVARIATE(*,*,EXP)", "seed": 20})
     cs.append({"kind": "roundtrip", "mfl": "LET(x,[CL,V]);COVARIATE?(@x,WT,[EXP,LIN],+);TRANSITS([1,2,3],*)", "seed": 21})
     cs.append({"kind": "iiv", "blocks": [["ETA_1"], ["ETA_2", "ETA_10"], ["ETA_CL"]], "fixed": [], "keep": [], "offset": 0, "seed": 22})
@@ -929,6 +932,16 @@ def run_alg(case, drv):
         if e is None and not isinstance(d.modes, (tuple, Wildcard)):
             mon.append({"cls": "statement-sub-wildcard-returns-non-tuple-modes",
                         "what": f"{x!r} - {y!r} = {d!r}: modes is a bare Name, not a tuple"})
+        elif e is None and not degenerate:
+            pool = {"abs": ABS, "elim": ELIM, "lag": LAG}[kind]
+            dflt = {"abs": "INST", "elim": "FO", "lag": "OFF"}[kind]
+            diff = set(expand(x.modes, pool)) - set(expand(y.modes, pool))
+            got = set(expand(d.modes, pool))
+            if got != (diff or {dflt}):
+                mon.append({"cls": "statement-sub-not-difference-modulo-default",
+                            "what": f"{x!r} - {y!r} = {d!r}, expected modes {sorted(diff or {dflt})}"})
+        elif e is not None and not degenerate:
+            mon.append({"cls": f"statement-sub-raises-{e}", "what": f"{x!r} - {y!r}"})
     for t in [s for s in sa if isinstance(s, st_mod["trans"])][:1]:
         for u in [s for s in sb if isinstance(s, st_mod["trans"])][:1]:
             v, e = attempt(lambda: t == u)
